@@ -621,15 +621,22 @@ def history_part(ctx, cases):
                     seqs.add(("gonze", route, (("set", a), ("run", q1), ("set", b), ("make", "-"), ("run", q2))))
     seqs = sorted(seqs)
     if ctx.quick:
-        # all sequences of the Wang object and of Phonopy; Gonze-Lee: those with a re-assignment, plus a sample
-        keep = [s_ for s_ in seqs if s_[0] == "wang" or sum(1 for x in s_[2] if x[0] == "set") >= 2]
-        rest = [s_ for s_ in seqs if s_ not in set(keep)]
+        # every sequence with a re-assignment between two queries, plus a sample of the others
+        keep = [s_ for s_ in seqs if sum(1 for x in s_[2] if x[0] == "set") >= 2 and
+                sum(1 for x in s_[2] if x[0] == "run") >= 2]
+        kset = set(keep)
+        rest = [s_ for s_ in seqs if s_ not in kset]
         ctx.rng.shuffle(rest)
-        seqs = keep + rest[:100]
+        seqs = keep + rest[:200]
 
     # ---- the concrete object and parameter sets ----------------------------------------------------
     pick = [t for t in cases if t[0]["mode"] == "random" and t[0]["entry"] in ("tetab", "cscl", "wz") and t[2]["comm"]]
     pick.sort(key=lambda t: len(t[1].ph0.supercell))
+    # the symmetrised charges of a random configuration can vanish by accident (cubic: a single number): take
+    # the first configuration whose charges are clearly non-zero
+    pick = [t for t in pick if np.abs(t[1].symmetrise_prim()[0]).max() > 0.2]
+    if not pick:
+        raise tlcmod.MachineryError("history: no configuration with non-zero symmetrised Born charges")
     c, case, spec = pick[0]
     bpA, epA = case.symmetrise_prim()
     fA = case.factor
